@@ -155,6 +155,12 @@ func (f *FuncVC) applyContract(st *State, x *ssa.Call, con *Contract, args []*Va
 		for _, a := range con.Anys {
 			ev.env[a[0]] = anyAtCall[a[0]]
 		}
+		if con.FuncType && !x.Call.IsInvoke() && x.Call.StaticCallee() == nil {
+			// the function value the call goes through ("thisfunc" in a functype contract)
+			if fv := f.val(st, x.Call.Value); fv != nil && fv.K == KFunc && fv.T != "" {
+				ev.env["thisfunc"] = fv
+			}
+		}
 		return ev
 	}
 	// "any" variables of the callee: one fresh arbitrary value per call (a
